@@ -357,47 +357,73 @@ def rule_ms(ctx: Ctx):
 
     # ---------------- MS-4: allocator ---------------------------------------
     r4.instances += 1
-    fm, ffn = ctx.function(REL, "new_index")
-    ps = ctx.fn_paths(fm, ffn)
-    NI, FS = ("arg", "next_index"), ("arg", "free_slots")
-    saw_pop = saw_next = False
-    for p in ps:
-        r4.paths += 1
-        v = p.value
-        if v is None or v[0] != "tuple" or len(v) != 4:
-            r4.ob(False, lambda: Finding("MS-4", "%s::new_index{return}" % REL, fm.where(ffn), "new_index must return (index, next_index, free_slots)", trace_of(p)))
-            continue
-        idx, nxt, fs = v[1], v[2], v[3]
-        pops = [e for e in p.trace if e.k == "mutate" and e.method == "pop" and e.base == FS]
-        if pops:
-            saw_pop = True
-            ok = idx == pops[0].result and nxt == NI and fs == FS
-            # guarded by len(free_slots) > 0
-            g = [e for e in p.trace if e.k == "decision" and any(x[0] == "call" and x[1] == ("builtin", "len") and x[2][0] == FS for x in subterms(e.test))]
-            ok = ok and bool(g)
-            r4.ob(ok, lambda: Finding("MS-4", "%s::new_index{reuse}" % REL, fm.where(ffn),
-                                      "when a free slot exists the result must be that popped slot and next_index must stay; returns %s" % show(v), trace_of(p)))
-        else:
-            saw_next = True
-            f = linform(nxt)
-            ok = idx == NI and f is not None and dict(f[0]) == {NI: 1} and f[1] == 1 and fs == FS
-            r4.ob(ok, lambda: Finding("MS-4", "%s::new_index{fresh}" % REL, fm.where(ffn),
-                                      "without free slot the result must be next_index and next_index + 1 must be returned as the new counter; returns %s" % show(v), trace_of(p)))
-    r4.ob(saw_next, lambda: Finding("MS-4", "%s::new_index{fresh-path}" % REL, fm.where(ffn), "new_index has no path handing out next_index"))
-    mm, fn = _method(ctx, "add_map")
-    for p in ctx.fn_paths(mm, fn, inline=False):
-        r4.paths += 1
-        calls = [e for e in p.trace if e.k == "call" and e.func[0] == "func" and e.func[1].name == "new_index"]
-        ok = len(calls) == 1 and tuple(calls[0].args) == (("attr", SELF, "next_index"), ("attr", SELF, "free_slots"))
-        res = calls[0].result if calls else None
-        stores = {e.attr: e.value for e in p.trace if e.k == "attrstore" and e.base == SELF}
-        ok = ok and stores.get("next_index") == ("sub", res, ("const", 1)) and stores.get("free_slots") == ("sub", res, ("const", 2))
-        idx = ("sub", res, ("const", 0))
-        ws = [e for e in p.trace if e.k == "substore"]
-        ok = ok and len(ws) == 1 and ws[0].value == idx and ws[0].index == ("arg", "map_key") and p.value == idx
-        r4.ob(ok, lambda: _f("MS-4", "add_map", mm, fn,
-                             "add_map must take (index, next_index, free_slots) from new_index(self.next_index, self.free_slots), store both "
-                             "counters back, bind map_key to the index in the parent's dict and return it", trace_of(p)))
+    has_alloc = any(sc.qualname == "new_index" for sc in m.scopes.values())
+    if has_alloc:
+        fm, ffn = ctx.function(REL, "new_index")
+        ps = ctx.fn_paths(fm, ffn)
+        NI, FS = ("arg", "next_index"), ("arg", "free_slots")
+        saw_pop = saw_next = False
+        for p in ps:
+            r4.paths += 1
+            v = p.value
+            if v is None or v[0] != "tuple" or len(v) != 4:
+                r4.ob(False, lambda: Finding("MS-4", "%s::new_index{return}" % REL, fm.where(ffn), "new_index must return (index, next_index, free_slots)", trace_of(p)))
+                continue
+            idx, nxt, fs = v[1], v[2], v[3]
+            pops = [e for e in p.trace if e.k == "mutate" and e.method == "pop" and e.base == FS]
+            if pops:
+                saw_pop = True
+                ok = idx == pops[0].result and nxt == NI and fs == FS
+                # guarded by len(free_slots) > 0
+                g = [e for e in p.trace if e.k == "decision" and any(x[0] == "call" and x[1] == ("builtin", "len") and x[2][0] == FS for x in subterms(e.test))]
+                ok = ok and bool(g)
+                r4.ob(ok, lambda: Finding("MS-4", "%s::new_index{reuse}" % REL, fm.where(ffn),
+                                          "when a free slot exists the result must be that popped slot and next_index must stay; returns %s" % show(v), trace_of(p)))
+            else:
+                saw_next = True
+                f = linform(nxt)
+                ok = idx == NI and f is not None and dict(f[0]) == {NI: 1} and f[1] == 1 and fs == FS
+                r4.ob(ok, lambda: Finding("MS-4", "%s::new_index{fresh}" % REL, fm.where(ffn),
+                                          "without free slot the result must be next_index and next_index + 1 must be returned as the new counter; returns %s" % show(v), trace_of(p)))
+        r4.ob(saw_next, lambda: Finding("MS-4", "%s::new_index{fresh-path}" % REL, fm.where(ffn), "new_index has no path handing out next_index"))
+        mm, fn = _method(ctx, "add_map")
+        for p in ctx.fn_paths(mm, fn, inline=False):
+            r4.paths += 1
+            calls = [e for e in p.trace if e.k == "call" and e.func[0] == "func" and e.func[1].name == "new_index"]
+            ok = len(calls) == 1 and tuple(calls[0].args) == (("attr", SELF, "next_index"), ("attr", SELF, "free_slots"))
+            res = calls[0].result if calls else None
+            stores = {e.attr: e.value for e in p.trace if e.k == "attrstore" and e.base == SELF}
+            ok = ok and stores.get("next_index") == ("sub", res, ("const", 1)) and stores.get("free_slots") == ("sub", res, ("const", 2))
+            idx = ("sub", res, ("const", 0))
+            ws = [e for e in p.trace if e.k == "substore"]
+            ok = ok and len(ws) == 1 and ws[0].value == idx and ws[0].index == ("arg", "map_key") and p.value == idx
+            r4.ob(ok, lambda: _f("MS-4", "add_map", mm, fn,
+                                 "add_map must take (index, next_index, free_slots) from new_index(self.next_index, self.free_slots), store both "
+                                 "counters back, bind map_key to the index in the parent's dict and return it", trace_of(p)))
+    else:
+        # no allocator helper: add_map itself must take the index from a store-wide source -- a slot popped from self.free_slots, or
+        # self.next_index, which then moves on by one -- never from something that restarts per parent key (the size of the parent's map)
+        mm, fn = _method(ctx, "add_map")
+        NXT, FRS = ("attr", SELF, "next_index"), ("attr", SELF, "free_slots")
+        for p in ctx.fn_paths(mm, fn):
+            r4.paths += 1
+            if p.outcome != "return":
+                continue
+            ws = [e for e in p.trace if e.k == "substore" and e.index == ("arg", "map_key")]
+            idx = ws[0].value if len(ws) == 1 else None
+            pops = [e for e in p.trace if e.k == "mutate" and e.method == "pop" and e.base == FRS]
+            stores = {e.attr: e.value for e in p.trace if e.k == "attrstore" and e.base == SELF}
+            ok = idx is not None and p.value == idx
+            if ok and pops:
+                ok = idx == pops[0].result and "next_index" not in stores
+            elif ok:
+                f = linform(stores["next_index"]) if "next_index" in stores else None
+                ok = idx == NXT and f is not None and dict(f[0]) == {NXT: 1} and f[1] == 1
+            r4.ob(ok, lambda p=p, idx=idx: _f(
+                "MS-4", "add_map", mm, fn,
+                "add_map must hand out an index no live group of this store holds: a slot popped from self.free_slots, or self.next_index (which then moves on by "
+                "one); it hands out %s -- an index that restarts for every parent key makes groups of different parents share the state slots of the operators below" % (
+                    show(idx) if idx is not None else None), trace_of(p)))
     # get_map: membership by 'in' (hash + ==) and dict indexing
     mm, fn = _method(ctx, "get_map")
     r4.instances += 1
